@@ -10,6 +10,8 @@ import (
 	"errors"
 	"fmt"
 	"os"
+	"runtime"
+	"strings"
 	"sync"
 	"sync/atomic"
 	"testing"
@@ -34,6 +36,9 @@ type vfsStack struct {
 	head    uint64
 	last    []byte
 	mu      sync.Mutex
+
+	appenderMu sync.Mutex
+	appender   string
 }
 
 func vfsSig(r uint64) []byte { return []byte(fmt.Sprintf("signature-of-round-%08d", r)) }
@@ -345,9 +350,23 @@ func tail(x []uint64, n int) []uint64 {
 }
 
 // appendN appends n rounds in its own goroutine (a bolt Put may have to wait for a parked read transaction).
+// vfsLastAppender: goroutine id of the most recent appendN goroutine of a stack (to find it in a dump).
+func goid() string {
+	buf := make([]byte, 64)
+	n := runtime.Stack(buf, false)
+	f := strings.Fields(string(buf[:n]))
+	if len(f) > 1 {
+		return f[1]
+	}
+	return "?"
+}
+
 func appendN(st *vfsStack, n int, watch ...*vfsConsumer) chan error {
 	ch := make(chan error, 1)
 	go func() {
+		st.appenderMu.Lock()
+		st.appender = goid()
+		st.appenderMu.Unlock()
 		for i := 0; i < n; i++ {
 			for _, w := range watch {
 				if w != nil && !isRegistered(st, w) {
